@@ -32,13 +32,11 @@ theorem stF_cls_tuple_some {w : World} {cfg : Cfg} (ht : cfg.tupleStrat = true) 
   · simp only [stF, ht, if_true]
 
 theorem stF_cls_tuple_none {w : World} {cfg : Cfg} (ht : cfg.tupleStrat = true) (c : Nat) {o : Obj}
-    (hi : iterItems o = none) : stF w cfg (.cls c) o = none := by
-  cases o <;> simp only [iterItems] at hi <;> try (cases hi)
-  all_goals
-    simp only [stF, ht, if_true]
-    split
-    · rfl
-    · rename_i xs h; simp [iterItems] at h
+    (hi : iterItems o = none) (hl : leafItems o = none) : stF w cfg (.cls c) o = none := by
+  rw [CattrsModel.stF_cls_tuple w cfg ht, hi]
+  simp only []
+  unfold leafFuel
+  rw [Leaf.stLF_cls_tuple_succ w cfg ht, hl]
 
 theorem stF_cls_nonmap {w : World} {cfg : Cfg} (ht : cfg.tupleStrat = false) (c : Nat) {o r : Obj}
     (ho : ∀ okvs, o ≠ .dict okvs) (h : stF w cfg (.cls c) o = some r) :
@@ -107,10 +105,9 @@ theorem planClsSt_ref (c : Nat) (v : HVal) (st : St) (k : Nat) (o : Obj) (g : Go
           (.inst c ((w.fields c).map (·.name))) ts os' st g (fun t ht => argSrc_ok h4 (hsrc t ht)) hden
         rw [buildPure_inst] at this
         exact (this.mono (by omega)).weaken (fun _ _ _ => trivial)
-    · rw [stF_cls_tuple_none ht' c h2]
-      unfold planClsSt
+    · unfold planClsSt
       simp only [ht, if_true, h1]
-      exact exec_noItems_ref w _ rec v st g _ _
+      exact exec_noItems_ref w _ rec v st g _ hdn (fun hl => stF_cls_tuple_none ht' c h2 hl) _
   | false =>
     have ht' : hc.cfg.core.tupleStrat = false := ht
     rcases dict_cases g hv hp hdn with ⟨l, kvs, okvs, k', rfl, hl, h1, rfl, rfl, h3, h4⟩ | ⟨h1, h2⟩
